@@ -103,6 +103,20 @@ def _root(c):
         finally:
             _rm(p)
         return fr
+    if c.get('root') == 'wf_tsel':
+        # (sub-box) a frame built from a caller-opened Waterfall with a TIME selection (rows 1..m of a file with m + 2 rows):
+        # whatever start time such a frame has, the file it saves carries that start time
+        from blimpy import Waterfall
+        big = stg.Frame(fchans=n, tchans=m + 2, df=g['df'], dt=g['dt'], fch1=g['fch1'], ascending=c['asc'],
+                        data=np.vstack([data[:1], data, data[-1:]]), t_start=T0, source_name=ROOT_SRC)
+        p = _tmp('.fil')
+        try:
+            big.save_fil(p)
+            fr = stg.Frame(waterfall=Waterfall(p, t_start=1, t_stop=m + 1))
+            fr.data = np.array(fr.data)
+        finally:
+            _rm(p)
+        return fr
     if c.get('root') == 'from_data_named':
         # (sub-box) the documented direct route with an existing Waterfall AND a source name of its own
         donor = stg.Frame(fchans=n, tchans=m, df=g['df'], dt=g['dt'], fch1=g['fch1'], ascending=c['asc'],
@@ -748,7 +762,7 @@ def run(ctx):
                 for op in OPS:
                     cases.append(dict(base, prefix=[op], depth=depth))
     # (sub-box) roots loaded from 8- and 16-bit files
-    for rt in ('fil8', 'fil16', 'from_data_named'):
+    for rt in ('fil8', 'fil16', 'from_data_named', 'wf_tsel'):
         for asc in (False, True):
             base = dict(geom=sorted(GEOMS)[0], asc=asc, tchans=SIZES[0][0], fchans=SIZES[0][1], seed=ctx.seed, tier=ctx.tier, root=rt)
             cases.append(dict(base, prefix=[], depth=0))
